@@ -217,7 +217,8 @@ func (mi *MessageInfo) marshalAppendPointer(b []byte, p pointer, opts marshalOpt
 			return b, err
 		}
 	}
-	if mi.unknownOffset.IsValid() && !mi.isMessageSet {
+	// (A MessageSet in a protolegacy build was handled by marshalMessageSet above.)
+	if mi.unknownOffset.IsValid() {
 		if u := mi.getUnknownBytes(p); u != nil {
 			b = append(b, (*u)...)
 		}
